@@ -92,5 +92,12 @@ pub fn exec_print(args: &[&str]) -> String {
 /// `disasm <whex>`
 pub fn exec_disasm(args: &[&str]) -> String {
     let Some(w) = args.first().and_then(|s| u16::from_str_radix(s, 16).ok()) else { return "bad-op".into() };
-    match catch(|| lc3_ensemble::ast::asm::disassemble_line(w).to_string()) { Ok(s) => hexs(s.as_bytes()), Err(_) => "panic".into() }
+    match catch(|| {
+        use lc3_ensemble::ast::asm::{disassemble, disassemble_line};
+        let s = disassemble_line(w).to_string();
+        // the slice API must be the word-by-word map of `disassemble_line`
+        let v = disassemble(&[w, !w, w.rotate_left(3)]);
+        let ok = v.len() == 3 && v[0].to_string() == s && v[1].to_string() == disassemble_line(!w).to_string() && v[2].to_string() == disassemble_line(w.rotate_left(3)).to_string();
+        (s, ok)
+    }) { Ok((s, true)) => hexs(s.as_bytes()), Ok((_, false)) => "slice-mismatch".into(), Err(_) => "panic".into() }
 }
